@@ -20,7 +20,8 @@ impl Stdin {
 
     /// `None` indicates EOF.
     fn read_char(&mut self) -> Option<char> {
-        read_char_from_bytes(|| self.read_byte()).expect("uh oh")
+        // Invalid UTF-8 becomes the replacement character (and so an invalid command), not a crash
+        read_char_from_bytes(|| self.read_byte()).unwrap_or(Some(char::REPLACEMENT_CHARACTER))
     }
 
     /// `None` indicates EOF.
